@@ -706,6 +706,8 @@ func stateRules(c *Ctx) {
 		doubleCheckedLocking(c, g, short1)
 		firstMemberMissed(c, g, short1)
 		memoByAddress(c, g, short1)
+		narrowCounter(c, g, short1)
+		gluedMemoKey(c, g, short1)
 		indexSummed(c, g, short1)
 	}
 	// parsers that link features to a local Sequence (shared by C01, C14, C15)
@@ -4807,6 +4809,111 @@ func memoByAddress(c *Ctx, g *ssa.Function, short1 string) {
 			return
 		}
 		c.bad("STATE", "memo-by-address:"+short1+"->"+gl.Name(), i.Pos(), fmt.Sprintf("%s remembers a value in package-level %s under the address of memory its caller owns (%s): the address stays the same when the caller changes what is stored there, so the next call is answered with the value that belonged to the old content", short1, gl.Name(), short(tb.T(key).String())))
+	})
+}
+
+// narrowCounter: occurrences in an argument text are counted in an 8- or 16-bit integer (a map of int16, a
+// []uint8 of tallies) inside a loop: the count wraps round (32767+1 = -32768) for inputs that are merely long.
+func narrowCounter(c *Ctx, g *ssa.Function, short1 string) {
+	narrow := func(t types.Type) (string, bool) {
+		b, ok := t.Underlying().(*types.Basic)
+		if !ok {
+			return "", false
+		}
+		switch b.Kind() {
+		case types.Int8, types.Int16, types.Uint16:
+			return b.Name(), true
+		}
+		return "", false
+	}
+	isOne := func(v ssa.Value) bool {
+		k, ok := v.(*ssa.Const)
+		return ok && k.Value != nil && k.Value.Kind() == constant.Int && k.Int64() == 1
+	}
+	eachInstr(g, func(i ssa.Instruction) {
+		var val ssa.Value
+		switch x := i.(type) {
+		case *ssa.MapUpdate:
+			val = x.Value
+		case *ssa.Store:
+			if _, isIA := x.Addr.(*ssa.IndexAddr); isIA {
+				val = x.Val
+			}
+		}
+		if val == nil || !inLoop(i.Block()) {
+			return
+		}
+		tn, isNarrow := narrow(val.Type())
+		if !isNarrow {
+			return
+		}
+		bo, isBO := val.(*ssa.BinOp)
+		if !isBO || bo.Op != token.ADD || !(isOne(bo.X) || isOne(bo.Y)) {
+			return
+		}
+		old := bo.X
+		if isOne(bo.X) {
+			old = bo.Y
+		}
+		switch o := old.(type) {
+		case *ssa.Lookup:
+		case *ssa.Extract:
+			if _, isLk := o.Tuple.(*ssa.Lookup); !isLk {
+				return
+			}
+		case *ssa.UnOp:
+			if _, isIA := o.X.(*ssa.IndexAddr); !isIA {
+				return
+			}
+		default:
+			return
+		}
+		c.bad("STATE", "narrow-counter:"+short1, i.Pos(), fmt.Sprintf("%s counts occurrences in a loop with counters of type %s: a count wraps round once it passes the type's range (32767 for int16), so an input that is merely long gets negative or small counts", short1, tn))
+	})
+}
+
+// gluedMemoKey: two texts that both come from the arguments are glued into one key of a package-level map
+// with nothing between them ("ab"+"c" and "a"+"bc" are the same key): a value remembered for one pair is
+// handed out for another.
+func gluedMemoKey(c *Ctx, g *ssa.Function, short1 string) {
+	tb := newTB(g)
+	tb.NoInline = true
+	eachInstr(g, func(i ssa.Instruction) {
+		var key ssa.Value
+		var gl *ssa.Global
+		switch x := i.(type) {
+		case *ssa.MapUpdate:
+			if gl = globalRoot(x.Map); gl != nil {
+				key = unwrapIface(x.Key)
+			}
+		case *ssa.Call:
+			if n := calleeName(x); (n == "(*sync.Map).Store" || n == "(*sync.Map).LoadOrStore") && len(x.Call.Args) == 3 {
+				if gl = globalRoot(x.Call.Args[0]); gl != nil {
+					key = unwrapIface(x.Call.Args[1])
+				}
+			}
+		}
+		bo, isBO := key.(*ssa.BinOp)
+		if gl == nil || !isBO || bo.Op != token.ADD {
+			return
+		}
+		if bt, isB := bo.Type().Underlying().(*types.Basic); !isB || bt.Info()&types.IsString == 0 {
+			return
+		}
+		argText := func(v ssa.Value) bool {
+			if _, isK := v.(*ssa.Const); isK {
+				return false
+			}
+			if inner, isB := v.(*ssa.BinOp); isB && inner.Op == token.ADD {
+				return false // a longer chain: its own joints are looked at when it is the key's direct operand
+			}
+			d, _ := dependsOnArgs(tb.T(v))
+			return d
+		}
+		if !argText(bo.X) || !argText(bo.Y) {
+			return
+		}
+		c.bad("STATE", "glued-memo-key:"+short1+"->"+gl.Name(), i.Pos(), fmt.Sprintf("%s remembers a value in package-level %s under two argument texts glued together with nothing between them (%s): different pairs of texts give the same key (\"ab\"+\"c\" = \"a\"+\"bc\"), so what was remembered for one pair is handed out for the other", short1, gl.Name(), short(tb.T(key).String())))
 	})
 }
 
